@@ -39,7 +39,7 @@ def run_one(meta):
 
 def main():
     sel = sys.argv[1:]
-    metas = [json.load(open(f)) for f in sorted(glob.glob(os.path.join(HERE, 'mutants', '*.json'))) if not f.endswith('RESULTS.json') and not f.endswith('BUILD.json')]
+    metas = [json.load(open(f)) for f in sorted(glob.glob(os.path.join(HERE, 'mutants', '*.json'))) if not f.endswith('RESULTS.json') and not f.endswith('BUILD.json') and not f.endswith('RENAMED.json')]
     if sel:
         metas = [m for m in metas if m['id'] in sel or m['property'] in sel]
     bad = 0
